@@ -134,6 +134,10 @@ fn semver_family(out: &mut Out) {
         PreReleaseIdentifier::Str("beta".into()),
         PreReleaseIdentifier::Str("1a".into()),
         PreReleaseIdentifier::Str("-".into()),
+        // a label with a counter glued to it: ASCII order, not the counter's value
+        PreReleaseIdentifier::Str("rc2".into()),
+        PreReleaseIdentifier::Str("rc10".into()),
+        PreReleaseIdentifier::Str("rc1a".into()),
         // numeric identifiers the parser keeps as text because they do not fit in u64, and the largest that does
         PreReleaseIdentifier::UInt(u64::MAX),
         PreReleaseIdentifier::Str("18446744073709551616".into()),
@@ -1614,7 +1618,7 @@ fn semver_roundtrip_family(out: &mut Out) {
             out.cex(fam, format!("class=core-number-above-u64-max {core:?} matches the SemVer 2.0.0 grammar but was rejected: {e}"));
         }
     }
-    for bad in ["01.0.0", "1.0", "1.0.0-", "1.0.0-01", "1.0.0+", "1.0.0-a..b", " 1.0.0", "1.0.0 ", "1.0.0\n", "1.0.0-é", "١.0.0", "V1.0.0", "vv1.0.0",
+    for bad in ["+1.0.0", "1.+0.0", "1.0.+0", "-1.0.0", "1.0.0-+1", "1 .0.0", "1.0.0.", ".1.0.0", "1.0.0+a+b", "01.0.0", "1.0", "1.0.0-", "1.0.0-01", "1.0.0+", "1.0.0-a..b", " 1.0.0", "1.0.0 ", "1.0.0\n", "1.0.0-é", "١.0.0", "V1.0.0", "vv1.0.0",
                 "1.0.0-a+", "1.0.0+a+b", "1.0.0-a_b", "1.00.0", "1.0.0-1.02", "", "v", "1.0.0.0", "1.0.0-٣"] {
         out.cases += 1;
         if SemVer::from_str(bad).is_ok() {
@@ -1626,12 +1630,12 @@ fn semver_roundtrip_family(out: &mut Out) {
 fn pep440_roundtrip_family(out: &mut Out) {
     let fam = "pep440_roundtrip";
     // (spelling, normal form) per field; numbers with leading zeros and above u32::MAX included
-    let epochs = [("", ""), ("0!", ""), ("2!", "2!"), ("002!", "2!"), ("4294967295!", "4294967295!"), ("4294967296!", "4294967296!")];
-    let releases = [("1", "1"), ("1.0", "1.0"), ("0.1.02", "0.1.2"), ("2024.3.15", "2024.3.15"), ("1.4294967296", "1.4294967296"), ("007", "7")];
+    let epochs = [("", ""), ("0!", ""), ("2!", "2!"), ("002!", "2!"), ("4294967295!", "4294967295!"), ("4294967296!", "4294967296!"), ("00000000003!", "3!")];
+    let releases = [("1", "1"), ("1.0", "1.0"), ("0.1.02", "0.1.2"), ("2024.3.15", "2024.3.15"), ("1.4294967296", "1.4294967296"), ("007", "7"), ("1.00000000002.3", "1.2.3")];
     let mut pres: Vec<(String, String)> = vec![("".into(), "".into())];
     for (sp, nf) in [("a", "a"), ("alpha", "a"), ("b", "b"), ("beta", "b"), ("c", "rc"), ("rc", "rc"), ("pre", "rc"), ("preview", "rc"), ("A", "a"), ("RC", "rc"), ("Beta", "b")] {
         for (i, s1) in ["", ".", "-", "_"].iter().enumerate() {
-            for (j, (n, nn)) in [("", "0"), ("0", "0"), ("1", "1"), ("012", "12"), ("4294967296", "4294967296")].iter().enumerate() {
+            for (j, (n, nn)) in [("", "0"), ("0", "0"), ("1", "1"), ("012", "12"), ("4294967296", "4294967296"), ("00000000005", "5")].iter().enumerate() {
                 if (i + j) % 2 == 1 && sp.len() > 2 {
                     continue;
                 }
@@ -1641,8 +1645,8 @@ fn pep440_roundtrip_family(out: &mut Out) {
         }
     }
     let posts = [("", ""), ("-1", ".post1"), (".post", ".post0"), ("post5", ".post5"), ("-rev-05", ".post5"), ("_r_0", ".post0"), (".POST.3", ".post3"),
-                 ("-4294967296", ".post4294967296"), (".post4294967296", ".post4294967296")];
-    let devs = [("", ""), (".dev", ".dev0"), ("dev3", ".dev3"), ("-DEV_03", ".dev3"), (".dev4294967296", ".dev4294967296")];
+                 ("-4294967296", ".post4294967296"), (".post4294967296", ".post4294967296"), ("-00000000004", ".post4"), (".post000000000006", ".post6")];
+    let devs = [("", ""), (".dev", ".dev0"), ("dev3", ".dev3"), ("-DEV_03", ".dev3"), (".dev4294967296", ".dev4294967296"), (".dev00000000007", ".dev7")];
     let locals = [("", ""), ("+abc", "+abc"), ("+ABC.1", "+abc.1"), ("+a-b_c", "+a.b.c"), ("+01.x", "+1.x"), ("+4294967296", "+4294967296"), ("+0A.00", "+0a.0"), ("+00000000000000000000001", "+1"),
                   ("+04294967296", "+4294967296"), ("+x.00099999999999_Y", "+x.99999999999.y")];
     let over = |s: &str| s.split(|c: char| !c.is_ascii_digit()).any(|run| {
@@ -1705,7 +1709,8 @@ fn pep440_roundtrip_family(out: &mut Out) {
             }
         }
     }
-    for bad in [" 1.0", "1.0 ", "1.0\n", "1..0", "1.0+", "1.0+a..b", "1.0-", "1.0a1b2", "a1", "1.0.dev1.post1", "1.0+é", "١.0", "1.0rc١", "1.0+a+b", "", "v", "1!", "!1.0", "1.0.postK", "1.0preſ1"] {
+    for bad in [" 1.0", "1.0 ", "1.0\n", "1..0", "1.0+", "1.0+a..b", "1.0-", "1.0a1b2", "a1", "1.0.dev1.post1", "1.0+é", "١.0", "1.0rc١", "1.0+a+b", "", "v", "1!", "!1.0", "1.0.postK", "1.0preſ1",
+                "+1", "+1.2.3", "1.+2.3", "1.2.+3", "+01.2", "-1.0", "1.-2", "+1!1.0", "1!+1.0", "1 .0", "1. 0", "1.0 a1", "vv1.0", "1.0.", ".1.0", "1.0+1.", "1.0++a"] {
         out.cases += 1;
         if PEP440::from_str(bad).is_ok() {
             out.cex(fam, format!("{bad:?} is outside the PEP 440 grammar but was accepted"));
@@ -1719,7 +1724,8 @@ fn tag_max_family(out: &mut Out, semver: bool) {
     let fam = if semver { "tag_max_semver" } else { "tag_max_pep440" };
     let pool: Vec<&str> = if semver {
         vec!["1.0.0", "v1.0.0", "1.0.0-alpha", "1.0.0-alpha.1", "1.0.0-alpha.beta", "1.0.0-beta", "1.0.0-beta.2", "1.0.0-beta.11", "1.0.0-rc.1",
-             "1.0.0+build", "1.0.1-0", "0.9.9", "1.0.0-1", "1.0.0-a", "1.0.0-A", "2.0.0-0", "1.10.0", "1.9.0", "not-a-version", "1.0"]
+             "1.0.0+build", "1.0.1-0", "0.9.9", "1.0.0-1", "1.0.0-a", "1.0.0-A", "2.0.0-0", "1.10.0", "1.9.0", "not-a-version", "1.0",
+             "0.9.0-20240115123045123456", "1.0.0-rc2", "1.0.0-rc10"]
     } else {
         vec!["1.0", "v1.0.0", "1.0a1", "1.0.alpha.1", "1.0b2", "1.0rc1", "1.0.post1", "1.0-1", "1.0.dev1", "1.0a1.dev1", "1.0.post1.dev2", "1!0.1", "0!1.0",
              "1.0+abc", "1.0+abc.1", "1.0+1", "1.0.1", "1.10", "1.9", "not-a-version", "1.0a"]
@@ -1883,7 +1889,10 @@ fn ron_roundtrip_family(out: &mut Out) {
     }
     let core = vec![C::Var(Var::Major), C::Var(Var::Minor), C::Var(Var::Patch)];
     for order in [vec![], vec![Precedence::Major], vec![Precedence::Dev, Precedence::Post, Precedence::Patch, Precedence::Minor, Precedence::Major],
-                  vec![Precedence::Epoch, Precedence::Major, Precedence::Minor, Precedence::Patch, Precedence::Core, Precedence::PreReleaseLabel, Precedence::PreReleaseNum, Precedence::Post, Precedence::Dev, Precedence::ExtraCore, Precedence::Build]] {
+                  vec![Precedence::Epoch, Precedence::Major, Precedence::Minor, Precedence::Patch, Precedence::Core, Precedence::PreReleaseLabel, Precedence::PreReleaseNum, Precedence::Post, Precedence::Dev, Precedence::ExtraCore, Precedence::Build],
+                  // all eleven levels in another order (an order-insensitive comparison with the built-in order would call this "default")
+                  vec![Precedence::Epoch, Precedence::Minor, Precedence::Major, Precedence::Patch, Precedence::Core, Precedence::PreReleaseLabel, Precedence::PreReleaseNum, Precedence::Post, Precedence::Dev, Precedence::ExtraCore, Precedence::Build],
+                  vec![Precedence::Build, Precedence::ExtraCore, Precedence::Dev, Precedence::Post, Precedence::PreReleaseNum, Precedence::PreReleaseLabel, Precedence::Core, Precedence::Patch, Precedence::Minor, Precedence::Major, Precedence::Epoch]] {
         if let Ok(s) = ZervSchema::new_with_precedence(core.clone(), vec![C::Var(Var::Epoch), C::Var(Var::PreRelease)], vec![C::Var(Var::BumpedBranch)], PrecedenceOrder::from_precedences(order.clone())) {
             schemas.push(s);
         }
@@ -1918,8 +1927,9 @@ fn ron_roundtrip_family(out: &mut Out) {
                 Ok(b) => b,
                 Err(e) => { out.cex(fam, format!("class=emitted-object-rejected an emitted Zerv object does not parse back: {e}; object starts {:?}", text.chars().take(160).collect::<String>())); continue; }
             };
-            if back != z {
-                let what = if back.schema != z.schema { "schema" } else { "vars" };
+            // `==` on the IndexMap-backed precedence order ignores the order of its entries, so the printed (Debug) forms are compared as well
+            if back != z || format!("{back:?}") != format!("{z:?}") {
+                let what = if back.schema != z.schema || format!("{:?}", back.schema) != format!("{:?}", z.schema) { "schema" } else { "vars" };
                 out.cex(fam, format!("class=not-identical emitted Zerv object parses back to a different object ({what} differ): emitted {:?}", text.chars().take(400).collect::<String>().replace('\n', " ")));
                 continue;
             }
@@ -2115,10 +2125,12 @@ fn pep440_spellings_family(out: &mut Out) {
     // each group: spellings of one version (case, separators, alternative labels, leading zeros, v prefix, trailing zero release numbers,
     // explicit epoch 0, implicit numbers)
     let groups: Vec<Vec<&str>> = vec![
-        vec!["1.0", "1", "1.0.0", "v1.0", "V1", "0!1.0", "00!1.0.0.0", "01.00"],
+        vec!["1.0", "1", "1.0.0", "v1.0", "V1", "0!1.0", "00!1.0.0.0", "01.00", "000000000001.0", "00000000000!1"],
         vec!["1.2a1", "1.2.a1", "1.2-a1", "1.2_a1", "1.2alpha1", "1.2.ALPHA.1", "1.2-alpha_1", "1.2A01", "v1.2.0a1", "1.2a.1", "1.2a-1", "1.2a_1"],
         vec!["1.2b0", "1.2b", "1.2beta", "1.2.BETA", "1.2-b", "1.2.0.b0", "1.2beta00"],
-        vec!["2rc3", "2c3", "2pre3", "2preview3", "2.RC.3", "2-c-3", "2_preview_3", "2.0rc03", "2PRE3"],
+        vec!["1.2.3", "1.00000000002.3", "1.2.00000000000003"],
+        vec!["2.0.post4", "2.0-00000000004", "2.0.post00000000004"],
+        vec!["2rc3", "2rc00000000003", "2c3", "2pre3", "2preview3", "2.RC.3", "2-c-3", "2_preview_3", "2.0rc03", "2PRE3"],
         vec!["1.0.post2", "1.0.post-2", "1.0-post2", "1.0post2", "1.0.rev2", "1.0-rev-2", "1.0r2", "1.0-r_2", "1.0-2", "1.0.POST.2", "1.0.0.post02", "1.0_post.2"],
         vec!["1.0.post0", "1.0.post", "1.0post", "1.0.rev", "1.0-r", "1.0.POST"],
         vec!["1.0.dev3", "1.0dev3", "1.0-dev3", "1.0_dev3", "1.0.dev-3", "1.0.dev.3", "1.0.DEV03", "1.0.0.dev3"],
